@@ -56,10 +56,11 @@ import (
 func main() { vlib.Run("C29", run) }
 
 func run(c *vlib.Ctx) {
-	c.Rule("hist strata: 12-45 ops {Publish 45%, Resolve 45%, Restart 10%} over 2-3 keys (ed25519 x2 + one of rsa/secp256k1/ecdsa) and 12 values (3 CIDs x 4 sub-paths), explicit sequence drawn around the current one (cur-1, cur, cur+1, cur+7, 0), TTL in {default,0,1h,2h}, EOL in {default, 2090, 2100, 2110}, 8% injected PutValue failures, routing store in {map, boxo offline router}, cache size {none | 1,2,16} x MaxCacheTTL {unset, 0, 1h}; hist-nocache never enables the cache, hist-cache always does. non-trivial = the history has a publish of a different value followed by a resolve of that key, a rejected explicit sequence, and a resolve through a non-canonical name form. chain stratum: 1-6 hops of IPNS/DNSLink nodes, 20% cycles, 10% dangling, per-hop TTL k*1h (k distinct 1..9) or 0, remainders, depth in {1..8, default, unlimited}; non-trivial = at least 2 hops with a remainder somewhere and (a zero TTL hop or a recursion error expected). distinct = FNV of config + op list")
+	c.Rule("hist strata: 12-45 ops {Publish 45%, Resolve 45%, Restart 10%} over 2-3 keys (ed25519 x2 + one of rsa/secp256k1/ecdsa) and 12 values (3 CIDs x 4 sub-paths), explicit sequence drawn around the current one (cur-1, cur, cur+1, cur+7, 0), TTL in {default,0,1h,2h}, EOL in {default, 2090, 2100, 2110}, 8% injected PutValue failures, routing store in {map, boxo offline router}, cache size {none | 1,2,16} x MaxCacheTTL {unset, 0, 1h}; hist-nocache never enables the cache, hist-cache always does. non-trivial = the history has a publish of a different value followed by a resolve of that key, a rejected explicit sequence, and a resolve through a non-canonical name form. chain stratum: 1-6 hops of IPNS/DNSLink nodes, 20% cycles, 10% dangling, per-hop TTL k*1h (k distinct 1..9) or 0, remainders, depth in {1..8, default, unlimited}; non-trivial = at least 2 hops with a remainder somewhere and (a zero TTL hop or a recursion error expected). conc stratum: 1-3 rounds of 2-6 goroutines publishing pairwise distinct values for one key at once through the real NameSystem, datastore Get / routing PutValue wrappers yielding or sleeping 20-800us at PRNG-chosen calls; oracle over the logged datastore writes and PutValue calls; non-trivial = at least two Publish calls were measured in flight together. distinct = FNV of config + op list")
 	c.Cases("hist-nocache", c.N(350, 3500), func(k *vlib.Case) { guarded(k, func() { histCase(k, false) }) })
 	c.Cases("hist-cache", c.N(350, 3500), func(k *vlib.Case) { guarded(k, func() { histCase(k, true) }) })
 	c.Cases("chain", c.N(700, 8000), func(k *vlib.Case) { guarded(k, func() { chainCase(k) }) })
+	c.Cases("conc", c.N(300, 4000), func(k *vlib.Case) { guarded(k, func() { concCase(k) }) })
 }
 
 func guarded(k *vlib.Case, fn func()) { vlib.Guard(k, "case", 120*time.Second, fn) }
